@@ -145,6 +145,31 @@ class RuleTransformer(ASTTransformer):
         raise AssertionError(act)
 
 
+def _make_sexp(cls: str, v: int):
+    """the constructor call of a `fresh` / `fresh2` action, as a `new` request of the model: what
+    `Z.LLeaf(v, origin=ORIGINS[0])` / `Z.LTup((), v, origin=ORIGINS[0])` pass (all other arguments default)"""
+    kids = [[fname] for fname, _kind, _al in Z.CLASSES[cls]["fields"]]
+    return [A("new"), cls, [["tag", "", False], ["v", str(v), True]], None, ORIGINS[0].fqn, False, False, False,
+            [A("kids")] + kids]
+
+
+def _rule_sexp(rule):
+    """one rule of a RuleVisitor / RuleTransformer for the model's rule table"""
+    cls, v, act = rule
+    pv = None if v is None else ["v", str(v)]
+    if act in ("remove", "raise"):
+        a = A(act)
+    elif act[0] == "set":
+        a = [A("set"), [["v", str(act[1]), True]]]
+    elif act[0] == "fresh":
+        a = [A("make"), _make_sexp("LLeaf", act[1])]
+    elif act[0] == "fresh2":
+        a = [A("make"), _make_sexp("LTup", act[1])]
+    else:
+        raise AssertionError(act)
+    return [cls, pv, a]
+
+
 # ---------------------------------------------------------------------------------- the real world
 
 class World:
@@ -372,7 +397,7 @@ class World:
             return [A("rwith"), r, None if op.a["new"] is None else tk(op.a["new"])]
         if k == "dup":
             return [A("dup"), r, op.a["clone"]]
-        return [A(k), r]
+        return [A(k), r, [A("rules")] + [_rule_sexp(rule) for rule in op.a["rules"]]]
 
     def exec(self, op: Op, allow_repeat: bool = False):
         """-> outcome (list) ; appends to self.steps.  outcome[0] in ok raise hang skip"""
@@ -577,7 +602,7 @@ def _canon_dump(rows):
 
 
 def encode_history(w: World):
-    """-> (request line, canonical real observation).  Only histories of primitive operations."""
+    """-> (request line, canonical real observation)"""
     reqs = [s[1] for s in w.steps]
     real = [[s[2], _canon_dump(s[3])] for s in w.steps]
     line = dumps([A("legacy"), Z.class_table_sexp(), [A("ops")] + reqs])
@@ -1467,8 +1492,8 @@ def _bump(key: str, n: int = 1) -> None:
 
 def history_cases(rng: random.Random, prop: str, n_prim: int, n_tr: int, length: tuple[int, int], rejects: int):
     """yields run.Case objects for property `prop` ("C18" | "C19") over n_prim histories of primitive
-    operations (K1 against the model + oracles) and n_tr histories that also use the transform
-    visitor / transformer (oracles only)"""
+    operations and n_tr histories that also use the transform visitor / transformer (both: K1 against
+    the model + oracles)"""
     from run import Case
 
     for h in range(n_prim + n_tr):
@@ -1488,7 +1513,7 @@ def history_cases(rng: random.Random, prop: str, n_prim: int, n_tr: int, length:
                 _bump(f"directed|{label}|{out[0]}")
         tail = " ; ".join(o.show() for o in g.history[-6:])
         hdesc = f"history#{h} ({len(g.history)} ops{', transformers' if tr else ''}) … {tail}"
-        if not tr:
+        if True:    # histories with the transform visitor / transformer are compared with the model as well
             line, real = encode_history(w)
             _bump("ops_compared_with_model", len(w.steps))
             yield Case("history-k1", line, real, nontrivial, hdesc, sig="k1|history")
